@@ -348,7 +348,23 @@ static void gen_C15(const std::string &tier, uint64_t seed, long idx, Scn &s) {
   g_hb.cm = (long)g.below(5); g_hb.hm = (long)g.below(3);
   g_hb.len = (long)g.below(4 * build_chunk_bytes() + 1);
   g_hb.pseed = (long)(g.next() >> 2);
-  for (int k = 0; k < n; k++) s.ops.push_back(g.chance(argv_heavy ? 0.8 : 0.2) ? gen_argv(g, k) : gen_api(g, k));
+  for (int k = 0; k < n; k++) {
+    // now and then repeat an earlier API operation on the very same file and key, but as another kind of operation or
+    // with the file tampered / the key wrong: state cached from the earlier, successful one must not leak into it
+    if (k > 0 && g.chance(0.25)) {
+      std::vector<size_t> apis;
+      for (size_t q = 0; q < s.ops.size(); q++) if (s.ops[q].kind == "api") apis.push_back(q);
+      if (!apis.empty()) {
+        Rec r = s.ops[apis[g.below(apis.size())]];
+        r.a[0] = 1 + (long)g.below(2);                                  // decrypt or verify
+        r.a[6] = g.chance(0.5) ? V_NORMAL : 1 + (long)g.below(3);       // normal / wrong key / tampered / too short
+        r.a[11] = k;
+        s.ops.push_back(r);
+        continue;
+      }
+    }
+    s.ops.push_back(g.chance(argv_heavy ? 0.8 : 0.2) ? gen_argv(g, k) : gen_api(g, k));
+  }
 }
 
 // ---------------------------------------------------------------- run
